@@ -87,6 +87,23 @@ type steps struct {
 	// is answered and carries on with its moves
 	badHeaderAt int
 	badHeader   string
+	// the session is created through the convenience constructor of its kind
+	// (NewClientSession, ReceiveClientSession, NewServerSession) instead of
+	// NewSession / ReceiveSession with an explicit negotiator
+	wrapper bool
+}
+
+// viaWrapper: the same handshake through the convenience constructors.
+func viaWrapper(tr transcript) transcript {
+	tr.name += " via the convenience constructor"
+	old := tr.prep
+	tr.prep = func(st *steps) {
+		if old != nil {
+			old(st)
+		}
+		st.wrapper = true
+	}
+	return tr
 }
 
 func withHeaderTo(tr transcript, to string) transcript {
@@ -369,7 +386,7 @@ func fullInitiator(ws bool, withVol bool, volFails bool, s2s bool) transcript {
 			if ws {
 				state = xmpp.Secure
 			}
-			return xmpp.NewSession(ctx, server, client, rw, state, negotiatorFor(ws, func() []xmpp.StreamFeature {
+			feats := func() []xmpp.StreamFeature {
 				fs := []xmpp.StreamFeature{xmpp.SASL("", "secret", sasl.Plain), xmpp.BindResource()}
 				if !ws {
 					fs = append([]xmpp.StreamFeature{startTLSStandIn()}, fs...)
@@ -381,7 +398,11 @@ func fullInitiator(ws bool, withVol bool, volFails bool, s2s bool) transcript {
 					fs = append(fs, st.extraFeat(st))
 				}
 				return fs
-			}))
+			}
+			if st.wrapper && !ws {
+				return xmpp.NewClientSession(ctx, client, rw, feats()...)
+			}
+			return xmpp.NewSession(ctx, server, client, rw, state, negotiatorFor(ws, feats))
 		},
 		script: func(st *steps, p *wire.Reactive, fresh []byte) []byte {
 			h := hdr(ws, ns, server.String(), st.headerTo, "s1")
@@ -443,7 +464,7 @@ func fullReceiver(ws bool, withVol bool, volFails bool) transcript {
 			if ws {
 				state = xmpp.Secure
 			}
-			return xmpp.ReceiveSession(ctx, rw, state, negotiatorFor(ws, func() []xmpp.StreamFeature {
+			feats := func() []xmpp.StreamFeature {
 				fs := []xmpp.StreamFeature{
 					xmpp.SASLServer(func(n *sasl.Negotiator) bool {
 						u, p, _ := n.Credentials()
@@ -461,7 +482,11 @@ func fullReceiver(ws bool, withVol bool, volFails bool) transcript {
 					fs = append(fs, st.extraFeat(st))
 				}
 				return fs
-			}))
+			}
+			if st.wrapper && !ws {
+				return xmpp.ReceiveClientSession(ctx, server, rw, feats()...)
+			}
+			return xmpp.ReceiveSession(ctx, rw, state, negotiatorFor(ws, feats))
 		},
 		script: func(st *steps, p *wire.Reactive, fresh []byte) []byte {
 			h := hdr(ws, ns, client.Bare().String(), server.String(), "")
@@ -539,6 +564,12 @@ func plainInitiator(s2s bool) transcript {
 	return transcript{
 		name: name,
 		start: func(ctx context.Context, rw io.ReadWriter, st *steps) (*xmpp.Session, error) {
+			if st.wrapper && s2s {
+				return xmpp.NewServerSession(ctx, server, client.Bare(), rw)
+			}
+			if st.wrapper {
+				return xmpp.NewClientSession(ctx, client.Bare(), rw)
+			}
 			return xmpp.NewSession(ctx, server, client.Bare(), rw, state, negotiatorFor(false, func() []xmpp.StreamFeature { return nil }))
 		},
 		script: func(st *steps, p *wire.Reactive, fresh []byte) []byte {
@@ -587,6 +618,10 @@ func transcripts() []transcript {
 		componentInitiator(),
 		fullInitiator(false, true, false, false),
 		fullReceiver(false, true, false),
+		viaWrapper(plainInitiator(false)),
+		viaWrapper(plainInitiator(true)),
+		viaWrapper(fullInitiator(false, false, false, false)),
+		viaWrapper(fullReceiver(false, false, false)),
 	}
 }
 
